@@ -972,6 +972,13 @@ def rule_const_logsizes(ctx):
     def val(n):
         c = C.get(pre + n)
         if c is None or 'val' not in c:
+            # the same constant as an associated const of a marker type: `<ReadLog as LogLimits>::FLUSH_POINT` for READ_LOG_FLUSH_POINT
+            parts = n.split('_')
+            if parts[0] in ('READ', 'WRITE') and len(parts) > 2:
+                tail = '_'.join(parts[2:])          # FLUSH_POINT / SIZE
+                cands = [c_ for k_, c_ in C.items() if k_.startswith('<' + pre) and k_.endswith('::' + tail) and parts[0].lower() in k_.lower() and 'val' in c_]
+                if len(cands) == 1:
+                    return cands[0]['val']
             raise CheckFailure('anchor missing: constant %s' % (pre + n))
         return c['val']
     vals = {n: val(n) for n in ('READ_LOG_FLUSH_POINT', 'READ_LOG_SIZE', 'WRITE_LOG_FLUSH_POINT', 'WRITE_LOG_SIZE',
@@ -1062,6 +1069,12 @@ def rule_flush_trigger(ctx):
     C = prog.consts
     pre = 'common::concurrent::constants::'
     size = {'write': (C.get(pre + 'WRITE_LOG_SIZE') or {}).get('val'), 'read': (C.get(pre + 'READ_LOG_SIZE') or {}).get('val')}
+    for kind_ in ('read', 'write'):
+        if size[kind_] is None:
+            # as an associated const of a marker type (`<ReadLog as LogLimits>::SIZE`)
+            cands = [c_['val'] for k_, c_ in C.items() if k_.startswith('<' + pre) and k_.endswith('::SIZE') and kind_ in k_.lower() and 'val' in c_]
+            if len(cands) == 1:
+                size[kind_] = cands[0]
     if None in size.values():
         raise CheckFailure('CMP-flush-trigger: log size constants not found')
     ws = set(write_scheduler(ctx))
